@@ -48,6 +48,11 @@ CHECKS = {
              "Schedules enumerated from the model are replayed on the real _ProgressBars (instrumented queue/event, no hook) and compared with the model; CLI runs with many chromosomes count result files. "
              "Modelled: atomic steps = flag test, pop(+append), put, set; the GIL / Manager proxies / pool teardown are not modelled.",
         design="DESIGN.md 6 C11"),
+    "C18": dict(
+        technique="Coq proof (rejection for every row position and surrounding content; results only after all checks) + malformed-input stream",
+        text="Theorems c18_dup/strand/column/chroms/no_result over the model of the import checks (any position of the offending row); one defect inserted at first/last/random (thorough: every) row position "
+             "of generated pairs through the real library stages and a sample through the CLI: must raise / exit non-zero with no <genome>_<chrom>.h5.",
+        design="DESIGN.md 6 C18"),
     "C19": dict(
         technique="Coq proof (case analysis of the open sequence; induction over open/write histories) + histories on real HDF5 files",
         text="Theorems c19_accept_iff_and_unchanged/error_kind/opens_preserve/reopen_accept_iff/reachable over the model of _DensitySubset; "
